@@ -25,13 +25,21 @@ class Spec:
         # a second family dense in checksummed targets and source edits with longer histories: staleness that
         # needs "out-of-band rebuild of the consumer, then another edit" lives here
         d = {"p_failflag": 5, "p_csum": 60, "p_always": 5, "p_ifc": 5, "min_ops": 8, "max_ops": 16,
-             "max_cmd_targets": 1,
-             "weights": {"cmd": 45, "edit": 34, "failflag": 1, "setdo": 3, "adddo": 1, "rmdo": 1, "rmtarget": 6,
+             "max_cmd_targets": 1, "p_stampif": 35, "p_focus": 40,
+             "weights": {"cmd": 45, "edit": 34, "stampflag": 8, "failflag": 1, "setdo": 3, "adddo": 1, "rmdo": 1, "rmtarget": 6,
                          "redo": 4, "mkpath": 1, "rmpath": 1, "ext": 1, "touch": 3}}
         if tier == "thorough":
             o.update(max_targets=14, max_ops=30)
             d.update(max_targets=12, max_ops=30)
-        return st.one_of(gen.histories(o), gen.histories(d))
+        # third family: tiny projects and a small operation alphabet (see C03)
+        t = {"min_targets": 2, "max_targets": 3, "max_sources": 2, "max_dirs": 0, "p_csum": 75, "p_stampif": 80,
+             "p_always": 0, "p_ifc": 0, "p_failflag": 0, "p_default": 0, "min_ops": 12, "max_ops": 22,
+             "max_cmd_targets": 1, "p_focus": 70, "edit_variants": 2,
+             "weights": {"cmd": 50, "edit": 30, "stampflag": 15, "touch": 0, "rmtarget": 3, "setdo": 0, "adddo": 0,
+                         "rmdo": 0, "mkpath": 0, "rmpath": 0, "ext": 0, "failflag": 0, "redo": 2}}
+        if tier == "thorough":
+            t.update(max_ops=30)
+        return st.one_of(gen.histories(o), gen.histories(d), gen.histories(t))
 
     def run_case(self, case, tier):
         return hist.HistoryRunner(case, self.checks, tag="c01").run()
